@@ -18,7 +18,7 @@ EXPLANATION = ("address/burstcount/byteenable/read/write/writedata are free per 
                "beats have reached the memory the memory's byte equals the reference.")
 
 
-def av_bench(name, av_dw=32, port_dw=32, max_burst=4, base=0, aw_native=4):
+def av_bench(name, av_dw=32, port_dw=32, max_burst=4, base=0, aw_native=4, gaps=False):
     from litex.soc.interconnect import avalon
     from litedram.frontend.avalon import LiteDRAMAvalonMM2Native
     ratio_up = port_dw // av_dw if port_dw > av_dw else 1
@@ -88,10 +88,10 @@ def av_bench(name, av_dw=32, port_dw=32, max_burst=4, base=0, aw_native=4):
     ]
     asm("legal_burstcount", ~req | ((av.burstcount >= 1) & (av.burstcount <= max_burst)))
     asm("inside_a_write_burst_only_write_beats_are_presented", ~((w_rem != 0) & av.read))
-    asm("burst_parameters_constant_during_write_burst", 1)
+    if not gaps:
+        asm("no_idle_gap_inside_a_write_burst", ~(w_rem != 0) | av.write)
     asm("addresses_inside_window", ~req | ((av.address >= off_words) & (av.address + av.burstcount <= off_words + 2**aw_av)))
     asm("watched_lane_in_range", WL < avb)
-    asm("no_new_request_while_read_data_outstanding", ~(req & (r_rem != 0) & ~av.readdatavalid) | 1)
     hitw = (cur_w_addr - off_words)[:aw_av] == WA
     top.sync += If(wacc & hitw & memstub.bit_of(av.byteenable, WL, avb), ref.eq(memstub.byte_of(av.writedata, WL, avb)))
     rhit = (r_addr - off_words)[:aw_av] == WA
@@ -125,6 +125,7 @@ def av_bench(name, av_dw=32, port_dw=32, max_burst=4, base=0, aw_native=4):
 
 
 CONFIGS = {
+    "gaps_equal_32_b4": (dict(av_dw=32, port_dw=32, max_burst=4, gaps=True), 20, 24, "qt"),
     "equal_32_b4": (dict(av_dw=32, port_dw=32, max_burst=4), 20, 30, "qt"),
     "equal_32_b2_base": (dict(av_dw=32, port_dw=32, max_burst=2, base=0x40), 20, 28, "qt"),
     "wide_32_on_16": (dict(av_dw=32, port_dw=16, max_burst=2), 0, 24, "t"),
@@ -136,6 +137,7 @@ BENCHES = {n: partial(av_bench, n, **c[0]) for n, c in CONFIGS.items()}
 def run(ctx):
     ctx.assume("Avalon master: request (read/write/address/burstcount/byteenable/writedata) held while waitrequest; burstcount "
                "1..max_burst_length; write-burst beats may be separated by idle cycles; no read presented inside a write burst")
+    ctx.assume("benches without the 'gaps_' prefix: no idle cycle between the beats of a write burst (see the known finding)")
     ctx.assume("memory: in-order native stub with the real crossbar's pulse semantics, arbitrary stalls, latency >= 2, <= 3 queued")
     for n, (kw, kq, kt, tiers) in CONFIGS.items():
         if ctx.only and not ctx.only.search(n):
